@@ -158,6 +158,8 @@ static buf_t sym_mutation(const tmpl& t) {
   }
   return {p, n};
 }
+// a property that may appear once only is repeated (a protocol error the library tolerates, keeping one of the values): fields are not compared then
+static bool unique_props(const ref::props_t& p) { for (int i = 0; i < p.n; i++) if (p.v[i].id != 0x26 && p.v[i].id != 0x0B && p.count(p.v[i].id) > 1) return false; return true; }
 static const uint8_t k_ack_props[] = {0x1F, 0, 3, 'a', 'b', 'c', 0x26, 0, 2, 'k', '1', 0, 3, 'v', 'a', 'l', 0x26, 0, 1, 'x', 0, 0};
 static const uint8_t k_connack_props[] = {0x11, 0, 0, 1, 0, 0x21, 0, 10, 0x24, 1, 0x25, 1, 0x27, 0, 0, 4, 0, 0x12, 0, 3, 'c', 'i', 'd', 0x22, 0, 5, 0x1F, 0, 2, 'o', 'k',
                                           0x26, 0, 1, 'k', 0, 1, 'v', 0x28, 1, 0x29, 1, 0x2A, 1, 0x13, 0, 60, 0x1A, 0, 1, 'r', 0x1C, 0, 1, 's', 0x15, 0, 1, 'm', 0x16, 0, 2, 1, 2};
@@ -178,6 +180,7 @@ void NAME(void) { \
     ref::packet k; int rv = ref::decode(buf, w.n, k, ref::L_OMIT_PROPS | ref::L_TRAILING | ref::L_DUP_PROPS); \
     vk_assert(rv == ref::OK, #DECODE " accepted a mutated body the reference decoder rejects"); \
     vk_assert(std::get<0>(*r) == k.rc, #DECODE ": reason code differs from the reference"); \
+    if (!unique_props(k.props)) { free(b.p); return; } \
     const auto& rs = std::get<1>(*r)[prop::reason_string]; const ref::prop_t* e = k.props.find(0x1F); \
     vk_assert(rs.has_value() == (e != nullptr) && (!e || ref::str_eq(e->a, rs->data(), rs->size())), #DECODE ": Reason String differs from the reference"); \
     vk_assert((int)std::get<1>(*r)[prop::user_property].size() == k.props.count(0x26), #DECODE ": number of User Properties differs from the reference"); \
@@ -217,6 +220,7 @@ void h_mut_connack(void) {
     ref::packet k; int rv = ref::decode(buf, w.n, k, ref::L_OMIT_PROPS | ref::L_TRAILING | ref::L_DUP_PROPS | ref::L_RESERVED);
     vk_assert(rv == ref::OK, "decode_connack accepted a mutated body the reference decoder rejects");
     vk_assert(std::get<1>(*r) == k.rc, "decode_connack: reason code differs from the reference");
+    if (!unique_props(k.props)) { free(b.p); return; }
     const auto& p = std::get<2>(*r);
     const ref::prop_t* e = k.props.find(0x12); vk_assert(p[prop::assigned_client_identifier].has_value() == (e != nullptr) && (!e || ref::str_eq(e->a, p[prop::assigned_client_identifier]->data(), p[prop::assigned_client_identifier]->size())), "decode_connack: Assigned Client Identifier differs from the reference");
     e = k.props.find(0x21); vk_assert(p[prop::receive_maximum].has_value() == (e != nullptr) && (!e || *p[prop::receive_maximum] == e->num), "decode_connack: Receive Maximum differs from the reference");
@@ -239,6 +243,7 @@ void h_mut_publish(void) {
     vk_assert(rv == ref::OK, "decode_publish accepted a mutated body the reference decoder rejects");
     vk_assert(ref::str_eq(k.topic, topic.data(), topic.size()) && ref::str_eq(k.payload, payload.data(), payload.size()), "decode_publish: topic or payload differs from the reference");
     vk_assert(pid.has_value() && *pid == k.pid, "decode_publish: packet id differs from the reference");
+    if (!unique_props(k.props)) { free(b.p); return; }
     const ref::prop_t* e = k.props.find(0x09); vk_assert(props[prop::correlation_data].has_value() == (e != nullptr) && (!e || ref::str_eq(e->a, props[prop::correlation_data]->data(), props[prop::correlation_data]->size())), "decode_publish: Correlation Data differs from the reference");
     e = k.props.find(0x08); vk_assert(props[prop::response_topic].has_value() == (e != nullptr) && (!e || ref::str_eq(e->a, props[prop::response_topic]->data(), props[prop::response_topic]->size())), "decode_publish: Response Topic differs from the reference");
     vk_assert((int)props[prop::subscription_identifier].size() == k.props.count(0x0B), "decode_publish: number of Subscription Identifiers differs from the reference");
@@ -259,6 +264,7 @@ void NAME(void) { \
     ref::packet k; int rv = ref::decode(buf, w.n, k, ref::L_OMIT_PROPS | ref::L_TRAILING | ref::L_DUP_PROPS); \
     vk_assert(rv == ref::OK, #DECODE " accepted a mutated body the reference decoder rejects"); \
     vk_assert(std::get<0>(*r) == k.rc, #DECODE ": reason code differs from the reference"); \
+    if (!unique_props(k.props)) { free(b.p); return; } \
     const auto& rs = std::get<1>(*r)[prop::reason_string]; const ref::prop_t* e = k.props.find(0x1F); \
     vk_assert(rs.has_value() == (e != nullptr) && (!e || ref::str_eq(e->a, rs->data(), rs->size())), #DECODE ": Reason String differs from the reference"); \
   } else vk_reach("rejected"); \
